@@ -15,6 +15,14 @@ Strings travel as `x` followed by hex byte pairs (`x` alone is the empty string)
   `lookupFrom SRC (message K)` (`SRC` is `b` backend or `c` cache file; the `devKind` token of `<req>` says
   whether the database finds the device at all, its profile tokens are ignored)
 
+* `wserve RN EL FE PEN DOMS K LINKED SNI BYID BYLINKED <req>` → the effects of a request to a server
+  (YAML protocol index `K`, `linked_ip_enabled` `LINKED`) of a server group (`profiles_enabled` `PEN`,
+  device domains `DOMS` = `-` or `xD,xD`) under `query_log.file.enabled` = `FE`; `SNI` is `-` or
+  `xLABEL,xPARENT`; `BYID`/`BYLINKED` are the profile database's answers `kind,pid,qlog,iplog,dev`; the
+  device and protocol tokens of `<req>` are ignored; answer: effects without the entry, then
+  `file=` the bytes appended to the log file (random number `RN`, elapsed `EL`)
+* `fsstep I C` at the step after the encoding: `C` ≠ `-` makes the `write(2)` fail
+
 `<entry>` is 21 tokens: ip reqKind reqList reqRule respKind respList respRule timeMs reqId prof dev
 cc rc name elapsedMs asn qtype rcode proto dnssec.
 -/
@@ -184,6 +192,30 @@ def step (s : S) : List String → S × String
        match parseReq (provTokens (src! src) w rest) with
        | some q => (s, showEffects (serve q))
        | none => (s, "bad-op"))
+  | "wserve" :: rn :: el :: fe :: pen :: doms :: k :: linked :: sni :: byid :: bylinked :: rest =>
+    (match parseReq rest with
+     | none => (s, "bad-op")
+     | some q0 =>
+       let lk (t : String) : Lookup :=
+         match t.splitOn "," with
+         | [kind, pid, ql, il, dev] => lookup! kind pid ql il dev
+         | _ => .notFound
+       let g : WGroup := ⟨bool! pen, if doms == "-" then [] else (doms.splitOn ",").map str!⟩
+       let sv : WServer := ⟨protoOfYAML (nat! k), bool! linked⟩
+       let id : Ident :=
+         { sni := match sni.splitOn "," with
+                  | [l, d] => some (str! l, str! d)
+                  | _ => none,
+           byID := lk byid, byLinked := lk bylinked }
+       let q := { q0 with elapsedMs := int! el }
+       let e := wiredServe g sv id q
+       let r := match e.resp with | none => "-" | some r => showResp r
+       let rs := match e.ruleStat with | none => "-" | some _ => "1"
+       let b := match e.bill with
+         | none => "-"
+         | some b => s!"{hexOf b.dev},{hexOf b.ctry},{b.asn},{b.proto}"
+       let f := wiredFile (bool! fe) g sv id q (nat! rn)
+       (s, s!"resp={r} rs={rs} bill={b} file={if f.isEmpty then "-" else hexOf f}"))
   | ["fsinit"] => ({ s with jobs := [], fs := {} }, "ok")
   | "fsw" :: rn :: rest =>
     (match parseEntry rest with
